@@ -67,7 +67,7 @@ EvRet == /\ E.t = "ret"
 EvEnd == /\ E.t = "end" /\ P' = P
          \* after time has been advanced past every timeout no request is left waiting
          /\ bad' = bad \cup Flag("C19_AllServed", E.hung = 0 /\ P.done = P.called)
-EvOther == /\ E.t \in {"advance", "peer_content"} /\ P' = P /\ bad' = bad
+EvOther == /\ E.t \in {"advance", "peer_content", "pool"} /\ P' = P /\ bad' = bad
 \* model replay (drivers/c11m.py, reuse behaviours of spec/RelayClient.tla)
 EvDrift == /\ E.t = "drift" /\ P' = P
            /\ bad' = bad \cup Flag("DRIFT_Result", ~E.result) \cup Flag("DRIFT_Conversation", ~E.conv)
